@@ -220,7 +220,21 @@ def impl(case):
         except Exception:  # noqa
             pass
     pure = common.enc_cfg(g3, R) == snap0
-    return {"steps": steps, "public": outs, "pure": pure}
+    # a three-step sequence: trim, re-weight so that some rules get the weight zero (`CFG.add` drops them), trim again —
+    # only the postcondition is checked (the language changes with the dropped rules)
+    shape_only = {}
+    try:
+        t = mk().trim()
+        ws = sorted({repr(r.w) for r in t.rules})
+        if ws:
+            victim = ws[len(ws) // 2]
+            zero = t.R.zero
+            m = t.map_values(lambda w: zero if repr(w) == victim else w, t.R)
+            shape_only["trim_mapvalues_trim"] = common.enc_cfg(m.trim(), R)
+            shape_only["trim_mapvalues_cotrim_trim"] = common.enc_cfg(t.cotrim().map_values(lambda w: zero if repr(w) == victim else w, t.R).cotrim().trim(), R)
+    except Exception as e:  # noqa
+        shape_only["trim_mapvalues_trim"] = {"exc": type(e).__name__, "msg": str(e)[:200]}
+    return {"steps": steps, "public": outs, "pure": pure, "shape_only": shape_only}
 
 
 def make_case(rng, i, tier):
@@ -403,6 +417,8 @@ SHAPE_EXPECT = {
     "separate_start": ["start_off_rhs"],
     "separate_terminals": ["terminals_separated"],
     "trim": ["trim_useful"],
+    "trim_mapvalues_trim": ["trim_useful"],
+    "trim_mapvalues_cotrim_trim": ["trim_useful"],
 }
 
 
@@ -457,6 +473,12 @@ def run_common(ctx, which):
             if name in SHAPE_EXPECT:
                 shape_ops.append({"op": "shape", "R": c["R"], "cfg": out, "orig": c["cfg"]})
                 shape_index.append((c, name, out))
+        for name, out in (res0.get("shape_only") or {}).items():
+            if "exc" in out:
+                semantic.append(_viol(which, c, name, None, out))
+                continue
+            shape_ops.append({"op": "shape", "R": c["R"], "cfg": out, "orig": out})
+            shape_index.append((c, name, out))
         allsteps = [(hashseeds[0], st) for st in res0["steps"]]
         # the unary-cycle steps depend on set iteration order (order of the blocks, of the nodes in a block): every hash seed
         for hs in hashseeds[1:]:
